@@ -11,7 +11,61 @@ class Wrapped:
         return "<Wrapped %r>" % (self.section,)
 
 
+# -- re-entry -----------------------------------------------------------------
+# Application datatypes may well use ZConfig themselves (a section datatype
+# that reads a second configuration file is the textbook case).  wrap() and
+# friends therefore run a complete little load, a substitution and a schema
+# load of their own while the outer load is in progress; the outer load must
+# not notice, and the inner one must give its own result.
+
+REENTRIES = [0]
+_MINI = [None]
+_DEPTH = [0]
+MINI_SCHEMA = ("<schema><sectiontype name='s'><key name='k' "
+               "datatype='integer'/><multikey name='m'/></sectiontype>"
+               "<multisection type='s' name='*' attribute='ss'/>"
+               "<key name='k' default='d'/><key name='+' attribute='w'/>"
+               "</schema>")
+MINI_TEXT = ("%define x 1\n%define Y ${x}2\nk $Y\nother v\n<s a>\n  k 2\n"
+             "  m $x\n  m $$\n</s>\n<S/>\n")
+
+
+class ReentryBroken(Exception):
+    """The nested load did not give its own result."""
+
+
+def reenter():
+    if _DEPTH[0]:
+        return
+    _DEPTH[0] += 1
+    try:
+        import io
+        import ZConfig
+        from ZConfig.substitution import substitute
+        REENTRIES[0] += 1
+        if _MINI[0] is None or REENTRIES[0] % 50 == 0:
+            _MINI[0] = ZConfig.loadSchemaFile(io.StringIO(MINI_SCHEMA))
+        cfg, handler = ZConfig.loadConfigFile(_MINI[0],
+                                              io.StringIO(MINI_TEXT))
+        got = (cfg.k, dict(cfg.w), [(x.getSectionName(), x.k, list(x.m))
+                                    for x in cfg.ss], len(handler),
+               substitute("$a-${B}$$", {"a": "1", "b": "2"}))
+        want = ("12", {"other": "v"}, [("a", 2, ["1", "$"]),
+                                       (None, None, [])], 0, "1-2$")
+        if got != want:
+            raise ReentryBroken("nested load gave %r, not %r" % (got, want))
+        try:
+            ZConfig.loadConfigFile(_MINI[0], io.StringIO("<s>\n k x\n</s>\n"))
+        except ZConfig.DataConversionError:
+            pass
+        else:
+            raise ReentryBroken("nested faulty load was accepted")
+    finally:
+        _DEPTH[0] -= 1
+
+
 def wrap(section):
+    reenter()
     return Wrapped(section)
 
 
@@ -20,6 +74,7 @@ class Wrapped2(Wrapped):
 
 
 def wrap2(section):
+    reenter()
     return Wrapped2(section)
 
 
@@ -28,6 +83,7 @@ def needs_marker(section):
     'marker' is the string 'bad' (used for section-datatype faults)."""
     if getattr(section, "marker", None) == "bad":
         raise ValueError("marker is bad")
+    reenter()
     return section
 
 
